@@ -4,6 +4,9 @@ import BppProofs.Lemmas.HmmAuto
 import BppProofs.Lemmas.HmmLogPost
 import BppProofs.Lemmas.HmmMarginal
 import BppProofs.Lemmas.HmmBreaks
+import BppProofs.Lemmas.HmmSite
+import BppProofs.Lemmas.HmmFullCache
+import BppProofs.Lemmas.HmmFullReal
 /-!
 # C13 — HMM likelihood algorithms   (src/Bpp/Numeric/Hmm)
 
@@ -259,6 +262,29 @@ theorem history_independent_lowmem {α : Type} [Scalar α] (t : Tables α) (maxS
   · have := Option.some.inj hb; subst this
     exact LowObj.run_spec _ rfl rfl rfl ops hne hvar
 
+/-! ## Options of the posterior accessors -/
+
+/-- `getHiddenStatesPosteriorProbabilities(probs, append)`, rescaled and log-sum classes, in every state
+of the object: the rows written are those of the plain call (`probs` empty, `append = false`), placed
+after the former content of `probs` with `append` and replacing it without — whatever `probs` held,
+however often the call is repeated on the same vector -/
+theorem posterior_append {α : Type} [Scalar α] [HasIsInf α] (buf : List (List α)) (append : Bool) :
+    (∀ (o : RescObj α) (m : List (List α)), (o.step .posterior).2 = .mat m →
+        (o.step (.posteriorInto buf append)).2 = .mat ((if append then buf else []) ++ m))
+    ∧ (∀ (o : LogObj α) (m : List (List α)), (o.step .posterior).2 = .mat m →
+        (o.step (.posteriorInto buf append)).2 = .mat ((if append then buf else []) ++ m)) :=
+  ⟨fun o m h => RescObj.posteriorInto_of_posterior o buf append m h,
+   fun o m h => LogObj.posteriorInto_of_posterior o buf append m h⟩
+
+/-- log-sum class: for valid break points `getHiddenStatesPosteriorProbabilitiesForASite(site)`, which
+walks through the break points on its own, answers row `site` of `getHiddenStatesPosteriorProbabilities`
+— at every position, in particular at, before and after a break point -/
+theorem logsum_single_site_agrees {α : Type} [Scalar α] (fw : LogFwd α) (back : List (List α)) (bps : List Nat)
+    (hlen : back.length = fw.logLik.length) (hv : ValidBreaks fw.logLik.length bps)
+    (m : List (List α)) (hm : logPosteriorOf fw back bps = some m) (site : Nat) (hs : site < fw.logLik.length) :
+    logPosteriorSiteOf fw back bps site = m[site]? :=
+  logPosteriorSite_eq_row fw back bps hlen hv m hm site hs
+
 /-- the hypothesis "no call raised" cannot be dropped: after an update that raised (negative
 transition probability) the rescaled object keeps answering the old log-likelihood -/
 theorem history_dependent_after_exception :
@@ -278,11 +304,7 @@ theorem history_dependent_after_exception :
   · simp only [RescObj.step, hb1]
   · simp only [RescObj.build, hb1, Option.map_none, Option.isNone_none]
 
-/-! ## Built-in transition models: AutoCorrelationTransitionMatrix (as repaired)
-
-`FullHmmTransitionMatrix` is not modelled (its rows are C19's simplices, its equilibrium vector is
-row 0 of `P^256` computed by C04's `pow` — exactly stationary only in the limit); it is judged on the
-implementation's answers only. -/
+/-! ## Built-in transition models: AutoCorrelationTransitionMatrix (as repaired) -/
 
 /-- for every number of states ≥ 1 and every `λ_i ∈ [0,1]` each row of the matrix is a probability vector
 (a single state: the matrix is `[1]`, as repaired) -/
@@ -311,6 +333,59 @@ theorem autocorr_one_state_witness :
     (if (0 : Nat) == 0 then (19 / 20 : ℝ) else (1 - 19 / 20) / ((1 : ℝ) - 1)) ≠ 1 ∧ autoEntry 1 (19 / 20 : ℝ) 0 0 = 1 := by
   refine ⟨by norm_num, autoEntry_one _ _ _⟩
 
+/-- `getPij()` agrees entry-wise with `Pij(i, j)`: entry `(i, j)` of the matrix a cache-free object
+computes is the value `Pij(i, j)` computes (and by `autocorr_history_independent` the cached object answers
+the same in every history) -/
+theorem autocorr_pij_agree {α : Type} [Scalar α] (n : Nat) (lam : List α) (i j : Nat) (hj : j < n) :
+    ((autoMatrix n lam)[i]?).bind (·[j]?) = (lam[i]?).map (fun li => autoEntry n li i j) :=
+  autoMatrix_entry n lam i j hj
+
+/-! ## Built-in transition models: FullHmmTransitionMatrix (rows = C19's simplices, equilibrium vector =
+row 0 of `P^256` by C04's `pow`; as repaired) -/
+
+/-- the two caches (`pij_`, `eqFreq_` with their up-to-date flags) never matter: in every history of
+updates (`setTransitionProbabilities`, `setParameterValue`, accepted or refused) and queries (`getPij`,
+`Pij`, `getEquilibriumFrequencies`) each answer is the one of the object whose caches are discarded before
+every call.  Generic in the scalar type. -/
+theorem full_history_independent {α : Type} [Scalar α] (n : Nat) (m : FullTM α) (hb : FullTM.build n = some m)
+    (ops : List (FullOp α)) : m.run ops = m.runFresh ops :=
+  FullTM.run_eq_runFresh m (FullTM.build_cacheOk n m hb) ops
+
+/-- … and each query is answered from the simplices alone: `getPij()` = the matrix of the `Pij(i, j)`
+(entry-wise agreement), `getEquilibriumFrequencies()` = row 0 of the 256-th power of that matrix -/
+theorem full_queries_from_simplices {α : Type} [Scalar α] (m : FullTM α) (h : m.CacheOk) :
+    (m.step .getPij).2 = .mat (fullMatrix m.rows)
+    ∧ (∀ i j, (m.step (.entry i j)).2 = match fullEntry m.rows i j with | some x => .val x | none => .err .ub)
+    ∧ (m.step .getEq).2 = (match fullEqOf m.n (fullMatrix m.rows) with | some e => .vec e | none => .err .ub)
+    ∧ (∀ op, (m.step op).1.CacheOk) :=
+  ⟨(FullTM.query_spec m h .getPij (Or.inl rfl)).1,
+   fun i j => (FullTM.query_spec m h (.entry i j) (Or.inr (Or.inl ⟨i, j, rfl⟩))).1,
+   (FullTM.query_spec m h .getEq (Or.inr (Or.inr rfl))).1,
+   fun op => FullTM.step_cacheOk m h op⟩
+
+/-- in every history from the constructor (1 ≤ n < 2^31 states; any arguments, refused calls change
+nothing) the matrix has `n` rows of `n` strictly positive entries summing to one -/
+theorem full_matrix_row_stochastic (n : Nat) (hn : 0 < n) (h31 : n < 2 ^ 31) (ops : List (FullOp ℝ)) :
+    ∃ m, FullTM.build (α := ℝ) n = some m ∧
+      ∃ Pf : Nat → Nat → ℝ, fullMatrix (m.after ops).rows = vec n (fun i => vec n (Pf i))
+        ∧ (∀ i j, i < n → j < n → 0 < Pf i j) ∧ ∀ i, i < n → ∑ j ∈ Finset.range n, Pf i j = 1 := by
+  obtain ⟨m, hb, hinv, hmn⟩ := FullTM.build_rowsInv n hn h31
+  obtain ⟨h1, h2⟩ := FullTM.after_rowsInv m hinv ops
+  obtain ⟨Pf, e, hpos, hsum⟩ := FullTM.rows_stochastic _ h1
+  rw [h2, hmn] at e hpos hsum
+  exact ⟨m, hb, Pf, e, hpos, hsum⟩
+
+/-- the equilibrium vector of such a matrix — row 0 of `P^256` as `MatrixTools::pow` computes it — is a
+probability vector and is stationary **up to an explicit remainder**: `|Σ_k π_k·P(k,j) − π_j| ≤ 2·(1 − n·δ)^256`
+for every `δ ≥ 0` below all entries of `P` (Dobrushin's contraction; exact stationarity `π·P = π` is false in
+exact arithmetic for a finite power) -/
+theorem full_stationary_remainder (n : Nat) (hn : 0 < n) (Pf : Nat → Nat → ℝ) (δ : ℝ) (hδ0 : 0 ≤ δ)
+    (hδ : ∀ i j, i < n → j < n → δ ≤ Pf i j) (hsum : ∀ i, i < n → ∑ j ∈ Finset.range n, Pf i j = 1) :
+    ∃ π : Nat → ℝ, fullEqOf n (vec n (fun i => vec n (Pf i))) = some (vec n π)
+      ∧ (∀ j, j < n → 0 ≤ π j) ∧ ∑ j ∈ Finset.range n, π j = 1
+      ∧ ∀ j, j < n → |∑ k ∈ Finset.range n, π k * Pf k j - π j| ≤ 2 * (1 - n * δ) ^ 256 :=
+  fullEqOf_stationary n hn Pf δ hδ0 hδ hsum
+
 /-! ## Non-vacuity -/
 
 /-- a 2-state chain satisfying every hypothesis above -/
@@ -319,5 +394,15 @@ example : PosP exP ∧ NonNegP exP ∧ 0 < exP.n := by
   refine ⟨⟨fun _ _ => by simp [exP], fun _ => by simp [exP]⟩, ⟨fun _ _ => by simp [exP], fun _ => by simp [exP]⟩, by simp [exP]⟩
 example : ValidBreaks 5 [1, 3] := by
   refine ⟨by simp, ?_⟩; intro b hb; simp at hb; rcases hb with rfl | rfl <;> omega
+example : breaksOk 5 [1, 3] = true ∧ breaksOk 5 [3, 1] = false ∧ breaksOk 5 [5] = false := by decide
+/-- a history satisfying `derivNamesOk` and the other hypotheses of `history_independent` that uses every operation -/
+example : derivNamesOk "" "" ([.posteriorInto [] true, .d1 "e1_0", .dSite 1, .d2 "e1_0", .d2Site 0, .posteriorSite 0,
+    .siteLik 0, .siteLiks, .setBreaks [1], .d2 "e0_0", .d2Site 1] : List (Op Rat)) = true := by decide
+/-- a 2-state matrix satisfying the hypotheses of `full_stationary_remainder` with `δ = 1/4`: the remainder is `2·(1/2)^256` -/
+example : (∀ i j, i < 2 → j < 2 → (1 / 4 : ℝ) ≤ (fun i j => if i = j then (3 / 4 : ℝ) else 1 / 4) i j)
+    ∧ ∀ i, i < 2 → ∑ j ∈ Finset.range 2, (fun i j => if i = j then (3 / 4 : ℝ) else 1 / 4) i j = 1 := by
+  refine ⟨fun i j _ _ => by simp only; split <;> norm_num, fun i hi => ?_⟩
+  have : i = 0 ∨ i = 1 := by omega
+  rcases this with rfl | rfl <;> simp [Finset.sum_range_succ] <;> norm_num
 
 end Bpp.C13
